@@ -199,8 +199,8 @@ class Blocks:
 # expected arrays
 
 
-def expected(M, blocks, shells_per_axis, types_per_axis, T):
-    """nested computation of the postcondition; returns object ndarray over the spec field"""
+def expected_items(M, blocks, shells_per_axis, types_per_axis, T):
+    """the postcondition, element by element: yields (index, value) and the shape first"""
     F = M.SF
     rows_per_axis = []
     for shells, types in zip(shells_per_axis, types_per_axis):
@@ -210,7 +210,7 @@ def expected(M, blocks, shells_per_axis, types_per_axis, T):
                 rows.append((si, r))
         rows_per_axis.append(rows)
     dims = tuple(len(r) for r in rows_per_axis) + blocks.trailing
-    out = np.empty(dims, dtype=object)
+    yield dims
     nax = len(rows_per_axis)
     cache = {}
     for I in itertools.product(*[range(len(r)) for r in rows_per_axis]):
@@ -228,8 +228,27 @@ def expected(M, blocks, shells_per_axis, types_per_axis, T):
                     w = wt if w is None else w * wt
                     pos += list(mc)
                 tot = tot + w * blk[tuple(pos) + t]
-            out[I + t] = tot
+            yield I + t, tot
+
+
+def expected(M, blocks, shells_per_axis, types_per_axis, T):
+    """nested computation of the postcondition; returns object ndarray over the spec field"""
+    it = expected_items(M, blocks, shells_per_axis, types_per_axis, T)
+    dims = next(it)
+    out = np.empty(dims, dtype=object)
+    for idx, v in it:
+        out[idx] = v
     return out
+
+
+def compare_items(M, name, got, items):
+    """streaming comparison (bounded memory for the four-index arrays)"""
+    dims = next(items)
+    M.true(name + "/shape", tuple(got.shape) == tuple(dims), "%s vs %s" % (got.shape, dims))
+    if tuple(got.shape) != tuple(dims):
+        return
+    for idx, v in items:
+        M.eq(name + "/out" + tag(idx), got[idx], v)
 
 
 def apply_transform(M, arr, U, naxes):
@@ -290,6 +309,7 @@ class TwoSymm(AssemblyBase):
     """BaseTwoIndexSymmetric.construct_array_{cartesian,spherical,mix,lincomb}"""
 
     fp = True  # cross-check: the same contract on the unmodified float64 code at sampled inputs (bounded)
+    fp_nsamp = (1, 3)
 
     def fp_shapes(self, tier):
         sh = self.shapes(tier)
@@ -386,6 +406,7 @@ class TwoSymmHerm(TwoSymm):
 
 class TwoAsymm(AssemblyBase):
     fp = True  # cross-check: the same contract on the unmodified float64 code at sampled inputs (bounded)
+    fp_nsamp = (1, 3)
 
     def fp_shapes(self, tier):
         sh = self.shapes(tier)
@@ -460,6 +481,7 @@ class TwoAsymm(AssemblyBase):
 
 class OneIndex(AssemblyBase):
     fp = True  # cross-check: the same contract on the unmodified float64 code at sampled inputs (bounded)
+    fp_nsamp = (1, 3)
 
     def fp_shapes(self, tier):
         sh = self.shapes(tier)
@@ -522,6 +544,7 @@ class OneIndex(AssemblyBase):
 
 class FourSymm(AssemblyBase):
     fp = True  # cross-check: the same contract on the unmodified float64 code at sampled inputs (bounded)
+    fp_nsamp = (1, 3)
 
     def fp_shapes(self, tier):
         sh = self.shapes(tier)
@@ -584,7 +607,9 @@ class FourSymm(AssemblyBase):
                 got = obj.construct_array_lincomb(U, list(types), **kw)
         M.true("asm/kwargs", all(k == kw for _, k in blocks.calls) and len(blocks.calls) > 0, "keyword arguments reach every block call")
         M.true("asm/transform-side", all(c == "left" for c in T.calls), "generate_transformation(..., 'left')")
-        exp = expected(M, blocks, [shells] * 4, [types] * 4, T)
         if method == "lincomb":
+            exp = expected(M, blocks, [shells] * 4, [types] * 4, T)
             exp = apply_transform(M, exp, M.to_spec(U), 4)
-        compare(M, "asm", got, exp)
+            compare(M, "asm", got, exp)
+        else:
+            compare_items(M, "asm", got, expected_items(M, blocks, [shells] * 4, [types] * 4, T))
